@@ -22,7 +22,7 @@ PROPS = ("C07",)
 
 def plan(tier, seed):
     q = tier == "quick"
-    specs = ec.plan_e2e(seed, 7, MIX, 110 if q else 1100)
+    specs = ec.plan_e2e(seed, 7, MIX, 110 if q else 1100, nwcap=12 if q else 24)
     for p in range(2):
         specs.append(dict(name="helper-%d" % p, mode="interp", what="helper", part=p, parts=2, full=not q, seed=[seed, 77, p]))
     for p in range(4 if q else 8):
